@@ -24,7 +24,7 @@ TRUSTED = [
     "task.add_done_callback(cb): cb runs atomically once after the task ended, for every way it can end (return, exception, cancellation)",
     "anyio task group: the `async with` block exits when both children have returned",
     "broker.listen() yields each taken message once and raises nothing but StopAsyncIteration (stream end: explored); CancelledError (external cancellation of listen()) is raised by no contract: that handler edge is not explored",
-    "the handler task never ends cancelled: nothing cancels it (it is only awaited at shutdown) and run_task turns every BaseException of the task function, CancelledError included, into an error result (obligation 'run_task/raises' of unit u_run_task) - so Task.exception()/cancelled() in the done-callback do not raise",
+    "the handler task may end CANCELLED (a CancelledError raised by user code - result backend, hook, acknowledgement - passes through callback's `except Exception` clauses): Task.cancelled() is then true and Task.exception() raises CancelledError; nothing else cancels it (it is only awaited at shutdown)",
     "callback()/run_task() never touch self.sem, self.sem_prefetch or the queue (frame obligations of units u_callback/u_run_task)",
 ]
 SENT = -1
@@ -45,6 +45,14 @@ def generate(src):
              and isinstance((n_.target if isinstance(n_, ast.AnnAssign) else n_.targets[0]), ast.Name)]
     if len(sets_) != 1: raise Unsupported("runner: expected exactly one local set of live callback tasks")
     TASKS = sets_[0]
+    # ---- the sentinel object: `is` tells it from a broker payload only if no payload can BE it. CPython keeps one shared object for b"" and for
+    # every 1-byte bytes value (any b"x" produced anywhere in the process is the same object), so such a literal is not private to the receiver.
+    sent_defs = [n_.value for n_ in src.tree(REL).body if isinstance(n_, ast.Assign) and any(isinstance(t_, ast.Name) and t_.id == 'QUEUE_DONE' for t_ in n_.targets)]
+    def private(v):
+        if isinstance(v, ast.Constant): return isinstance(v.value, (bytes, str)) and len(v.value) >= 2 and not (isinstance(v.value, str) and v.value.isidentifier())
+        return isinstance(v, ast.Call) and ast.unparse(v) == 'object()'
+    oblige(State(), "module/QUEUE_DONE: the end-of-stream sentinel is one object private to the receiver (a bytes literal of >= 2 bytes, or object()): no payload a broker yields can be the very same object, so the identity test tells every message from the sentinel  [C01/C05]",
+           BoolVal(len(sent_defs) == 1 and private(sent_defs[0])), props=['C01', 'C05'], replay={'driver': 'og'})
     A, P, N = Ints('A P N'); hasA, hasT = Bool('hasA'), Bool('has_wait_timeout')
     j_, k_ = Ints('j_ k_')
     def symstate(tag):
@@ -195,12 +203,16 @@ def generate(src):
     def h_done(ex, st, e, recv, args, kw, k, K):          # Task.done() of the look-ahead fetch: it finished (a message was delivered, or the stream ended)
         if ex.thread != 'P': raise Unsupported("done() of " + ast.unparse(e.func.value) + " outside the prefetcher")
         g = G(st); return k(st, PyBool(Or(g['la'] == 2, g['la'] == 3)))
-    def h_exception(ex, st, e, recv, args, kw, k, K):          # Task.exception() of the finished handler task: None or the exception it raised; raises only for a cancelled task (assumed away, see TRUSTED)
+    def h_exception(ex, st, e, recv, args, kw, k, K):          # Task.exception() of the finished handler task: None or the exception it raised; for a task that ended CANCELLED it raises CancelledError
         if ex.thread != 'E' or recv != 'HANDLE_CB': raise Unsupported("exception() of " + ast.unparse(e.func.value))
-        return k(st, fresh('handler_exception'))
+        c = G(st).get('cb_cancelled', BoolVal(False))
+        ok = st.fork(); ok.pc.append(Not(c))
+        if ex.feasible(ok): k(ok, fresh('handler_exception'))
+        f = st.fork(); f.pc.append(c)
+        if ex.feasible(f): K['exc'](f, new_exc(f, 'CancelledError'))
     def h_cancelled(ex, st, e, recv, args, kw, k, K):
         if ex.thread != 'E' or recv != 'HANDLE_CB': raise Unsupported("cancelled() of " + ast.unparse(e.func.value))
-        return k(st, PyBool(BoolVal(False)))
+        return k(st, PyBool(G(st).get('cb_cancelled', BoolVal(False))))
     def h_cancel(ex, st, e, recv, args, kw, k, K): g = G(st); setG(st, la=If(g['la'] == 1, 0, g['la'])); return k(st, None)
     def h_put(ex, st, e, recv, args, kw, k, K):
         v = args[0]
@@ -387,11 +399,11 @@ def generate(src):
                     exw = Ex('E', {**H, 'self.callback': h_cb_abstract}); stw = st.fork(); stw.env = dict(stw.env); stw.env[fd.args.args[0].arg] = PyInt(fresh('msg', IntSort()))
                     exw.block(fd.body, stw, lambda s: ends.append(s), {'ret': lambda s, v: ends.append(s), 'exc': lambda s, x: ends.append(s)})
                 for st_end in ends:
-                    st_end.env = {'self': PyObj(Int('self_a')), 'task': 'HANDLE_CB'}
+                    st_end.env = {'self': PyObj(Int('self_a')), 'task': 'HANDLE_CB'}; setG(st_end, cb_cancelled=fresh('handler_task_ended_cancelled', BoolSort()))
                     ex.block(TASK_CB.body, st_end, lambda s: res.append(s), {'ret': lambda s, v: res.append(s),
                              'exc': lambda s, x: oblige(s, "task_cb/raises: the done-callback never raises (an exception there skips the release of the execution slot)  [C03]", BoolVal(False), props=['C03'], witness=wit(pre), replay=RP)})
                 for s in res:
-                    g = dict(s.ghost); g['done_cb'] = g['done_cb'] + 1
+                    g = dict(s.ghost); g.pop('cb_cancelled', None); g['done_cb'] = g['done_cb'] + 1
                     oblige(s, "task_cb/post: releases exactly one execution slot iff a limit is set  [C03]", g['cb_released'] == If(hasA, 1, 0), props=['C03'], witness=wit(pre), replay=RP)
                     out.append(('E', name, pre, pc + list(s.pc), [], g, name))
                 continue
